@@ -106,6 +106,17 @@ func c03ExpTree(r *rand.Rand) map[string]string {
 		}
 		return strconv.Itoa(r.Intn(6))
 	}
+	if r.Intn(3) == 0 {
+		// a well-formed key directory (the command's normal use): valid names only, every file a decodable key
+		good := []string{"k1", "k2", "did:web:example.com%3A8080:iam:u#0", "3f1c2a9e-5b7d-4c1a-9e2f-0a1b2c3d4e5f", "a b", "a#b", "%2e%2e", "%2F", "._.", "...", "x.y_z-1", ":"}
+		for i := 0; i < n; i++ {
+			tree[good[r.Intn(len(good))]+c03ExpSuffix] = strconv.Itoa(r.Intn(6))
+		}
+		if r.Intn(4) == 0 {
+			tree["readme.txt"] = "bad"
+		}
+		return tree
+	}
 	for i := 0; i < n; i++ {
 		name := c03ExpName(r)
 		switch r.Intn(12) {
@@ -450,7 +461,7 @@ func TestVerifC03(t *testing.T) {
 		}
 		return op
 	}
-	n, nv := 500, 16
+	n, nv := 500, 24
 	if thorough {
 		n, nv = 8000, 150
 	}
